@@ -396,16 +396,26 @@ type reader struct {
 	more       bool // more to read
 }
 
+// readerVar returns the value of a variable that controls the reader. The
+// variables are in the common-lisp package, that value is used when the
+// current package does not use that package and has no variable of its own.
+func readerVar(s *Scope, name string) Object {
+	if s.has(name) || CurrentPackage.Has(name) {
+		return s.get(name)
+	}
+	return CLPkg.JustGet(name)
+}
+
 func (r *reader) scoped(s *Scope) {
 	r.rbase = 10
 	r.intRx = intRxs[10]
 	r.ratioRx = ratioRxs[10]
-	if num, ok := s.get("*read-base*").(Fixnum); ok && 1 < num && num <= 36 {
+	if num, ok := readerVar(s, "*read-base*").(Fixnum); ok && 1 < num && num <= 36 {
 		r.rbase = int(num)
 		r.intRx = intRxs[num]
 		r.ratioRx = ratioRxs[num]
 	}
-	ff, _ := s.get("*read-default-float-format*").(Symbol)
+	ff, _ := readerVar(s, "*read-default-float-format*").(Symbol)
 	switch ff {
 	case SingleFloatSymbol, ShortFloatSymbol, DoubleFloatSymbol, LongFloatSymbol:
 		r.floatType = ff
